@@ -94,7 +94,12 @@ impl LayerContents {
             .ok_or(FontLoadError::MissingDefaultLayer)?;
         layers.rotate_left(default_idx);
 
-        Ok(LayerContents { layers, path_set: HashSet::new() })
+        // record the directories that are taken by the non-default layers, as
+        // `new_layer` does, so that later additions and renames avoid them
+        let path_set =
+            layers.iter().skip(1).map(|l| l.path.to_string_lossy().to_lowercase()).collect();
+
+        Ok(LayerContents { layers, path_set })
     }
 
     /// Returns the number of layers in the set.
